@@ -37,7 +37,8 @@ def main():
                 viol = [l for l in lines if l.startswith("VIOLATION")]
                 detail = None
                 if viol:
-                    rp = viol[0].split("replay=")[1].split()[0]
+                    best = next((v for v in viol if not v.endswith("no-failing-input-found")), viol[0])
+                    rp = best.split("replay=")[1].split()[0]
                     try:
                         j = json.load(open(rp))
                         detail = {k: j.get(k) for k in ("kind", "case", "oracle", "obligation", "problems", "impl", "model") if j.get(k) is not None}
@@ -45,7 +46,7 @@ def main():
                     except Exception as e:
                         detail = {"error": str(e)}
                 res["checks"][p]["first_replay"] = detail
-                print(f"{os.path.relpath(d, V)}: check {p} exit={c.returncode} " + ("DETECTED" + (" (no-failing-input-found)" if viol and viol[0].endswith("no-failing-input-found") else " with failing input") if viol else "missed"), flush=True)
+                print(f"{os.path.relpath(d, V)}: check {p} exit={c.returncode} " + ("DETECTED" + (" (no-failing-input-found)" if viol and all(v.endswith("no-failing-input-found") for v in viol) else " with failing input") if viol else "missed"), flush=True)
         finally:
             sh(["git", "-C", REPO, "checkout", "--", "."])
         res["detected_by"] = [p for p, v in res["checks"].items() if any(l.startswith("VIOLATION") for l in v["lines"])]
